@@ -99,6 +99,43 @@ def m_kfault(pre, ev, post):
                                        sorted((a, p, s.hex()) for a, p, s in m2)), w2.history)
 
 
+ENOBUFS = 105
+
+
+def m_ksock(pre, ev, post):
+    """fault enumeration: re-execute the transition once per netlink request (NEWSA or DELSA) with the netlink socket
+    itself failing (OSError ENOBUFS: the request never reaches the kernel).  The daemon survives it, and once it has had
+    its next timer sweep and everything has settled, kernel and tracking agree again."""
+    for name in sorted(post.endpoints):
+        ep_pre, ep_post = pre.endpoints[name], post.endpoints[name]
+        new_reqs = ep_post.kernel.log[len(ep_pre.kernel.log):]
+        for j, r in enumerate(new_reqs):
+            if not r[1] or r[1]['type'] not in (K.XFRM_MSG_NEWSA, K.XFRM_MSG_DELSA):
+                continue
+            w = pre.fork()
+            w.endpoints[name].kernel.sock_fail_next(j, ENOBUFS)
+            w.history.append(('ksockfail', name, j, ENOBUFS))
+            P.apply_event(w, ev)
+            C.COVER['ksock-reexecutions'] += 1
+            lab = '%s#%d:%s' % (r[1]['name'].lower(), j, P.ev_label(pre, ev))
+            e2 = w.endpoints[name]
+            if not e2.alive:
+                yield ('M-exc', 'ksock-escape:%s:%s' % (e2.dead_reason[0], lab),
+                       'netlink socket failure at %s let %s escape main_loop of %s' % (lab, e2.dead_reason[0], name))
+                continue
+            w.step(('tick', 1.5))
+            w.history.append(('tick', 1.5))
+            w2, status = P.drain(w)
+            for n2, e3 in w2.endpoints.items():
+                if e3.alive:
+                    o2, m2 = P.sad_diff(e3)
+                    if o2 or m2:
+                        yield ('M-sad', 'ksock-drain:orphan=%d:missing=%d:%s' % (len(o2), len(m2), lab),
+                               '%s after a netlink socket failure at %s, a timer sweep and drain: untracked=%s absent=%s' % (
+                                   n2, lab, sorted((a, p, s.hex()) for a, p, s in o2),
+                                   sorted((a, p, s.hex()) for a, p, s in m2)), w2.history)
+
+
 def sm_drain_sad(world):
     """M-sad also at every step of the lossless drain from every state"""
     w, status = P.drain(world)
@@ -120,7 +157,7 @@ def m_sad_counted(pre, ev, post):
     return P.m_sad(pre, ev, post)
 
 
-MONITORS = [m_sad_counted, m_clauses, m_kfault, C.m_del]
+MONITORS = [m_sad_counted, m_clauses, m_kfault, m_ksock, C.m_del]
 STATE_MONITORS = [sm_drain_sad]
 
 
